@@ -18,7 +18,7 @@ REG.contract('Observation.is_finished', params={'current_time': 'num', 'telescop
              ensures=lambda c: [('C13-finished-exactly-one-duration-after-the-actual-start', c.result.t == z3.And(
                  z3.Not(c.o.self.isnone('ast')), c.o.current_time.t >= c.o.self.ast.t + c.o.self.duration.t,
                  c.o.telescope_status.t, c.o.self.status.t != RS('FINISHED')))],
-             result='bool', props=['C13', 'C08'])
+             result='bool', props=['C13', 'C08', 'C04', 'C07'])
 
 
 # ---- Telescope -------------------------------------------------------------------------------------------------------------
@@ -41,14 +41,14 @@ REG.contract('Telescope.begin_observation', world=TW, params={'observation': 'Ob
              ensures=lambda c: [('C08-arrays-taken', c.n.self.telescope_use.t == c.o.self.telescope_use.t + c.o.observation.demand.t),
                                 ('C08-use-stays-within-total', c.n.self.telescope_use.t <= c.o.self.total_arrays.t),
                                 ('in-use', c.n.self.telescope_status.t), ('returns-running', c.result.val == EnumConst('RunStatus', 'RUNNING'))],
-             modifies=['self.telescope_use', 'self.telescope_status'], props=['C08'])
+             modifies=['self.telescope_use', 'self.telescope_status'], props=['C08', 'C19'])
 REG.contract('Telescope.finish_observation', world=TW, params={'observation': 'Observation'},
              requires=lambda c: [('demand-nonneg', c.o.observation.demand.t >= 0)],
              ensures=lambda c: [('C08-arrays-released', c.n.self.telescope_use.t == c.o.self.telescope_use.t - c.o.observation.demand.t),
                                 ('status-off-exactly-when-no-arrays-in-use', c.n.self.telescope_status.t == z3.If(
                                     c.n.self.telescope_use.t == 0, False, c.o.self.telescope_status.t)),
                                 ('returns-finished', c.result.val == EnumConst('RunStatus', 'FINISHED'))],
-             modifies=['self.telescope_use', 'self.telescope_status'], props=['C08'])
+             modifies=['self.telescope_use', 'self.telescope_status'], props=['C08', 'C04', 'C19', 'C13'])
 
 
 def _all_finished(c, sv, tel):
@@ -155,7 +155,7 @@ REG.contract('Telescope.run', world=TW, locals_types={},
              raises={'RuntimeError': dict(when=None, unchanged=False)},
              modifies=['self.events', 'ghost:unlogged_instrument', 'self.delayed', 'self.telescope_use', 'self.telescope_status', 'self.scheduler.provision_ingest',
                        'heap:Observation.ast', 'heap:Observation.status'],
-             props=['C08', 'C13'])
+             props=['C08', 'C13', 'C04', 'C07'])
 REG.loop('Telescope.run', 1, inv=_trun_inv, body=_trun_body,
          modifies_locals=['observation', 'capacity', 'ret', 'process'],
          modifies=['self.events', 'ghost:unlogged_instrument', 'self.telescope_use', 'self.telescope_status', 'self.scheduler.provision_ingest',
